@@ -1487,8 +1487,15 @@ write_gvar_data(Relocation *cur, Initializer *init, Type *ty, char *buf, int off
     return cur;
   }
 
+  // An initializer is converted to the type of the object as if by
+  // assignment (matters for _Bool and for floating initializers).
+  Node *expr = init->expr;
+  add_type(expr);
+  if (is_integer(ty) && is_numeric(expr->ty))
+    expr = new_cast(expr, ty);
+
   char **label = NULL;
-  uint64_t val = eval2(init->expr, &label);
+  uint64_t val = eval2(expr, &label);
 
   if (!label) {
     write_buf(buf + offset, val, ty->size);
